@@ -500,7 +500,7 @@ def adaptive_pair(ck, n):
         p = cmp_cov(Pd, Pi, sd, rtol=base + K * nc, label=f"adaptive dense-iso cov, init {'exact' if base < 1e-5 else 'inexact'} (beyond 50x twin noise)")
         if p:
             ck.report(f"C14.dense-iso.{mode}.cov", f"{describe(c)}: {p} [twin noise {nc:.2e}]", rep)
-        if sd_.shape != si.shape or not np.all(np.abs(sd_ - si) <= (base + K * ns) * np.abs(sd_) + sfloor(sd_, si)):
+        if sd_.shape != si.shape or (np.isfinite(ns) and not np.all(np.abs(sd_ - si) <= (base + K * ns) * np.abs(sd_) + sfloor(sd_, si))):
             ck.report(f"C14.dense-iso.{mode}.scale", f"{describe(c)}: output scales {sd_.ravel().tolist()} vs {si.ravel().tolist()}", rep)
 
 
@@ -508,8 +508,8 @@ def main():
     ck = lib.Check("C14")
     pr = ck.run_proof()
     quick = ck.tier == "quick"
-    phases = [ts0_three(ck, 10 if quick else 150), ts1_decoupled(ck, 10 if quick else 150),
-              ts1_scalar_jacobian(ck, 10 if quick else 150), adaptive_pair(ck, 10 if quick else 100)]
+    phases = [ts0_three(ck, 12 if quick else 150), ts1_decoupled(ck, 12 if quick else 150),
+              ts1_scalar_jacobian(ck, 12 if quick else 150), adaptive_pair(ck, 12 if quick else 100)]
     batches = [next(ph) for ph in phases]            # every phase first yields its runs ...
     res = run(ck, [r for b in batches for r in b])    # ... all runs are dispatched together ...
     k = 0
